@@ -10,19 +10,17 @@ open CS.Codec CS.Storage
 def Covered (st : St) (i : Nat) : Prop := i ∈ st.dirty ∨ i ∈ st.silent
 
 /-- What hook code may do to the state.  `x` is the entry whose own hook is still running (it may
-    be written before its dirty mark).  Storage, storage ids, the number of entries and the ghost
-    `gone` data are untouched; an entry whose content changes is covered. -/
+    be written before its dirty mark).  Storage, storage ids and the number of entries are untouched;
+    an entry whose content changes is covered. -/
 structure LeX (x : Option Nat) (a b : St) : Prop where
   store : b.store = a.store
   len : b.ents.length = a.ents.length
   cov : ∀ i : Nat, Covered a i → Covered b i
   ents : ∀ i : Nat, b.ents[i]? = a.ents[i]? ∨ Covered b i ∨ x = some i
   sid : ∀ i : Nat, (b.ents[i]?).map Entry.storageId = (a.ents[i]?).map Entry.storageId
-  gone : b.gone = a.gone
-  touched : b.goneTouched = a.goneTouched
 
 theorem LeX.refl (x : Option Nat) (a : St) : LeX x a a :=
-  ⟨rfl, rfl, fun _ h => h, fun _ => Or.inl rfl, fun _ => rfl, rfl, rfl⟩
+  ⟨rfl, rfl, fun _ h => h, fun _ => Or.inl rfl, fun _ => rfl⟩
 
 theorem LeX.trans {x : Option Nat} {a b c : St} (h1 : LeX x a b) (h2 : LeX x b c) : LeX x a c where
   store := h2.store.trans h1.store
@@ -37,18 +35,16 @@ theorem LeX.trans {x : Option Nat} {a b c : St} (h1 : LeX x a b) (h2 : LeX x b c
     · exact Or.inr (Or.inl h)
     · exact Or.inr (Or.inr h)
   sid := fun i => (h2.sid i).trans (h1.sid i)
-  gone := h2.gone.trans h1.gone
-  touched := h2.touched.trans h1.touched
 
 theorem LeX.weaken {x : Option Nat} {a b : St} (h : LeX none a b) : LeX x a b := by
-  refine ⟨h.store, h.len, h.cov, fun i => ?_, h.sid, h.gone, h.touched⟩
+  refine ⟨h.store, h.len, h.cov, fun i => ?_, h.sid⟩
   rcases h.ents i with g | g | g
   · exact Or.inl g
   · exact Or.inr (Or.inl g)
   · cases g
 
 theorem LeX.close {i : Nat} {a b : St} (h : LeX (some i) a b) (hc : Covered b i) : LeX none a b := by
-  refine ⟨h.store, h.len, h.cov, fun j => ?_, h.sid, h.gone, h.touched⟩
+  refine ⟨h.store, h.len, h.cov, fun j => ?_, h.sid⟩
   rcases h.ents j with g | g | g
   · exact Or.inl g
   · exact Or.inr (Or.inl g)
@@ -96,10 +92,10 @@ theorem setIx_ents (s : St) (sd : Sd) (ix : SideIdx) : (s.setIx sd ix).ents = s.
 theorem Pres_modIx {x : Option Nat} (sd : Sd) (f : SideIdx → SideIdx) : Pres x (modIx sd f) := by
   constructor
   intro a
-  cases sd <;> exact ⟨rfl, rfl, fun _ h => h, fun _ => Or.inl rfl, fun _ => rfl, rfl, rfl⟩
+  cases sd <;> exact ⟨rfl, rfl, fun _ h => h, fun _ => Or.inl rfl, fun _ => rfl⟩
 
 theorem Pres_modChangeset {x : Option Nat} (f : List Nat → List Nat) : Pres x (modChangeset f) :=
-  ⟨fun _ => ⟨rfl, rfl, fun _ h => h, fun _ => Or.inl rfl, fun _ => rfl, rfl, rfl⟩⟩
+  ⟨fun _ => ⟨rfl, rfl, fun _ h => h, fun _ => Or.inl rfl, fun _ => rfl⟩⟩
 
 theorem mem_sadd {s : List Nat} {x y : Nat} : y ∈ sadd s x ↔ y ∈ s ∨ y = x := by
   unfold sadd
@@ -124,7 +120,7 @@ theorem covered_markDirty (a : St) (i j : Nat) (h : Covered a j) :
     · exact Or.inr (mem_sdiscard.2 ⟨h, hj⟩)
 
 theorem Pres_markDirty {x : Option Nat} (i : Nat) : Pres x (markDirty i) :=
-  ⟨fun a => ⟨rfl, rfl, fun j h => covered_markDirty a i j h, fun _ => Or.inl rfl, fun _ => rfl, rfl, rfl⟩⟩
+  ⟨fun a => ⟨rfl, rfl, fun j h => covered_markDirty a i j h, fun _ => Or.inl rfl, fun _ => rfl⟩⟩
 
 theorem Post_markDirty (i : Nat) : Post (fun b => Covered b i) (markDirty i) :=
   ⟨fun _ _ _ => Or.inl (mem_sadd.2 (Or.inr rfl))⟩
@@ -149,7 +145,7 @@ theorem covered_silentMark_mono (a : St) (i j : Nat) (h : Covered a j) : Covered
     · exact mem_sadd.2 (Or.inl h)
 
 theorem LeX_silentMark (x : Option Nat) (a : St) (i : Nat) : LeX x a (silentMark i a) :=
-  ⟨rfl, rfl, fun j h => covered_silentMark_mono a i j h, fun _ => Or.inl rfl, fun _ => rfl, rfl, rfl⟩
+  ⟨rfl, rfl, fun j h => covered_silentMark_mono a i j h, fun _ => Or.inl rfl, fun _ => rfl⟩
 
 theorem Pres_markSilent {x : Option Nat} (i : Nat) : Pres x (markSilent i) := ⟨fun a => LeX_silentMark x a i⟩
 
@@ -166,7 +162,7 @@ theorem Pres_rawEnt_self (i : Nat) (f : Entry → Entry) (hf : ∀ e, (f e).stor
     Pres (some i) (rawEnt i f) := by
   constructor
   intro a
-  refine ⟨rfl, by simp [rawEnt, modSt], fun _ h => h, fun j => ?_, fun j => getElem?_modify_sid _ _ _ _ hf, rfl, rfl⟩
+  refine ⟨rfl, by simp [rawEnt, modSt], fun _ h => h, fun j => ?_, fun j => getElem?_modify_sid _ _ _ _ hf⟩
   by_cases h : i = j
   · exact Or.inr (Or.inr (by rw [h]))
   · left
@@ -262,7 +258,7 @@ theorem Pres_changeOid (i : Nat) (sd : Sd) (p : Val) : Pres (some i) (changeOid 
   unfold changeOid
   pres
 
-theorem Pres_updatedChanged (i : Nat) (sd : Sd) (p : Val) : Pres (some i) (updatedChanged rec i sd p) := by
+theorem Pres_updatedChanged (i : Nat) (sd : Sd) (p : Val) : Pres (some i) (updatedChanged i sd p) := by
   unfold updatedChanged
   pres
 
@@ -272,7 +268,7 @@ theorem Pres_updatedPriority (i : Nat) (p : Int) : Pres (some i) (updatedPriorit
 
 theorem Pres_updatedSide (i : Nat) (sd : Sd) (w : SideWrite) : Pres (some i) (updatedSide rec i sd w) := by
   unfold updatedSide
-  repeat' (first | pres_step | apply Pres_changePath rec hrec | apply Pres_changeOid rec hrec | apply Pres_updatedChanged rec hrec)
+  repeat' (first | pres_step | apply Pres_changePath rec hrec | apply Pres_changeOid rec hrec | apply Pres_updatedChanged)
 
 theorem Pres_updatedEnt (i : Nat) (w : EntWrite) : Pres (some i) (updatedEnt rec i w) := by
   unfold updatedEnt
